@@ -476,13 +476,28 @@ def gen_mprog(rng, nops):
 
 
 def _run_m(prog):
+    import signal
     torch.set_num_threads(1)
+
+    class _Timeout(Exception):
+        pass
+
+    def _alarm(*_a):
+        raise _Timeout()
+    old = signal.signal(signal.SIGALRM, _alarm)
+    signal.alarm(120)
     try:
         line, impl = MRunner(prog).run()
         return {"prog": prog, "line": line, "impl": impl}
+    except _Timeout:
+        HOOK.on = False
+        return {"prog": prog, "timeout": True}
     except Exception:  # noqa: BLE001
         import traceback
         return {"prog": prog, "crash": traceback.format_exc()[-1500:]}
+    finally:
+        signal.alarm(0)
+        signal.signal(signal.SIGALRM, old)
 
 
 def compare(prog, impl, model):
@@ -530,6 +545,10 @@ def correspondence(R, procs):
     for r in res:
         if "crash" in r:
             raise RuntimeError("model-history runner crashed:\n" + r["crash"])
+        if r.get("timeout") or r.get("lost"):
+            R.mismatch("C06_Cache.step/read vs tensordict", {"spec": r["prog"]["spec"], "ops": r["prog"]["ops"], "stream": "model"},
+                       "history did not finish within 120 s", "terminates")
+            continue
         if r["impl"]:
             lines.append(r["line"])
             keep.append(r)
